@@ -276,6 +276,11 @@ func (msg *MessageAuth) FromBytes(src []byte) error {
 			return ErrIncorrectSourceBytes
 		}
 
+		// the last chunk ends the message: anything after it is not part of it
+		if i == q-1 && l != p+2+int(chunk.Length) {
+			return ErrIncorrectSourceBytes
+		}
+
 		chunk.Type = src[p+1]
 		if (i == 0 && chunk.Type != MessageChunkTypeAuth) || (i > 0 && chunk.Type != MessageChunkTypePrev) {
 			return ErrIncorrectSourceBytes
